@@ -81,8 +81,10 @@ pub struct PassthroughFs<S> { pub no_opendir: AtomicBool, pub handle_map: Handle
 #[verifier::external_body] pub struct HandleMap { _p: u8 }
 
 // ---- names: bytes up to the first NUL (same definitions as in the server prelude)
+#[verifier::opaque]
 pub open spec fn has_nul(s: Seq<u8>) -> bool { exists|i: int| 0 <= i < s.len() && s[i] == 0u8 }
 pub open spec fn first_nul(s: Seq<u8>) -> int { choose|i: int| 0 <= i < s.len() && s[i] == 0u8 && forall|j: int| 0 <= j < i ==> s[j] != 0u8 }
+#[verifier::opaque]
 pub open spec fn cstr_of(s: Seq<u8>) -> Seq<u8> { s.subrange(0, first_nul(s)) }
 #[verifier::external_body] pub struct CrateError { _p: u8 }
 // crate::bytes_to_cstr (src/lib.rs): contract only (std meaning of iter().position + CStr::from_bytes_with_nul), as in unit `server`
@@ -94,6 +96,7 @@ pub proof fn lemma_first_nul(s: Seq<u8>)
     requires has_nul(s)
     ensures 0 <= first_nul(s) < s.len(), s[first_nul(s)] == 0u8, forall|j: int| 0 <= j < first_nul(s) ==> s[j] != 0u8
 {
+    reveal(has_nul);
     let i0 = choose|i: int| 0 <= i < s.len() && s[i] == 0u8;
     lemma_least_nul(s, i0);
 }
@@ -219,7 +222,7 @@ pub tracked struct KState {
     pub ghost pos: Map<int, int>,          // descriptor -> number of entries already consumed from its stream
     pub ghost cache: Map<u64, u64>,        // HandleMap::cookies
     pub ghost pending: Seq<u8>,            // bytes the last getdents64 wrote into the spare capacity of the buffer
-    pub ghost errno: int,
+    pub ghost errno: i32,
 }
 // each handle owns its own open file description
 pub open spec fn fds_distinct() -> bool { forall|a: u64, b: u64| a != b ==> #[trigger] handle_fd(a) != #[trigger] handle_fd(b) }
@@ -228,6 +231,18 @@ pub open spec fn cache_inv(ks: KState) -> bool {
     forall|h: u64| #[trigger] ks.cache.dom().contains(h) ==> ({
         let fd = handle_fd(h); let d = dir_of(fd); let c = ks.cache[h];
         c != 0 && find_off(d, c) < d.len() && ks.pos[fd] == find_off(d, c) + 1 })
+}
+// ... and no cached handle owns the descriptor fd (so moving fd's position cannot break it)
+pub open spec fn cache_inv_except(ks: KState, fd: int) -> bool {
+    cache_inv(ks) && forall|h: u64| #[trigger] ks.cache.dom().contains(h) ==> handle_fd(h) != fd
+}
+pub proof fn lemma_cache_frame(k0: KState, k1: KState, fd: int)
+    requires cache_inv_except(k0, fd), k1.cache == k0.cache, forall|f: int| f != fd ==> k1.pos[f] == k0.pos[f]
+    ensures cache_inv_except(k1, fd)
+{
+    assert forall|h: u64| #[trigger] k1.cache.dom().contains(h) implies ({
+        let f = handle_fd(h); let d = dir_of(f); let c = k1.cache[h];
+        c != 0 && find_off(d, c) < d.len() && k1.pos[f] == find_off(d, c) + 1 }) by { assert(k0.cache.dom().contains(h)); }
 }
 pub open spec fn pos_ok(ks: KState, fd: int) -> bool { 0 <= ks.pos[fd] <= dir_of(fd).len() }
 // what both resume paths leave behind: `b` holds the run of records that ends at the descriptor's position and (for a known cookie)
@@ -272,7 +287,7 @@ pub mod sys {
     { unimplemented!() }
     #[verifier::external_body]
     pub fn last_os_error(Tracked(ks): Tracked<&mut KState>) -> (r: io::Error)
-        ensures *final(ks) == *old(ks), r.os_code() == Some(old(ks).errno as i32)
+        ensures *final(ks) == *old(ks), r.os_code() == Some(old(ks).errno)
     { unimplemented!() }
 }
 // ---- host objects
@@ -324,11 +339,13 @@ pub open spec fn call_matches(c: CallRec, e: Dirent, fd: int) -> bool {
 }
 // the callback took the entry: Ok(n) with n != 0 (Ok(0) = "does not fit", Err = failure)
 pub open spec fn accepted(c: CallRec) -> bool { c.ok is Some && c.ok->Some_0 != 0 }
+#[verifier::opaque]
 pub open spec fn all_accepted(calls: Seq<CallRec>, vis: Seq<Dirent>, fd: int) -> bool {
     calls.len() == vis.len() && forall|j: int| 0 <= j < calls.len() ==> call_matches(#[trigger] calls[j], vis[j], fd) && accepted(calls[j])
 }
 // what one do_readdir call may do with the batch it read: offer the visible entries in order, each with its own ino/off/type/name,
 // never continue after an entry was not accepted, and stop early only for that reason
+#[verifier::opaque]
 pub open spec fn delivered_ok(batch: Seq<Dirent>, calls: Seq<CallRec>, fd: int) -> bool {
     let vis = visible(batch);
     calls.len() <= vis.len()
@@ -355,13 +372,62 @@ pub proof fn lemma_visible_take(s: Seq<Dirent>, i: int)
     assert(s =~= s.take(i + 1) + s.skip(i + 1));
     lemma_visible_add(s.take(i + 1), s.skip(i + 1));
 }
+// ---- the per-call statement of C16 and the steps of the record loop (checked by Verus)
+pub open spec fn resume_post(inode: u64, offset: u64, calls: Seq<CallRec>) -> bool {
+    let dd = dir_content(inode);
+    exists|e: int, fd: int| after(dd, offset) <= e <= dd.len() && (e == after(dd, offset) ==> e == dd.len()) && fd_ino(fd) == inode
+        && #[trigger] delivered_ok(dd.subrange(after(dd, offset), e), calls, fd)
+}
+pub open spec fn batch_pre(inode: u64, offset: u64, fd: int, p: int, batch: Seq<Dirent>) -> bool {
+    let dd = dir_content(inode);
+    fd_ino(fd) == inode && (known(dd, offset) ==> batch == dd.subrange(after(dd, offset), p) && after(dd, offset) <= p <= dd.len() && (p == after(dd, offset) ==> p == dd.len()))
+}
+pub proof fn lemma_exit(inode: u64, offset: u64, fd: int, p: int, batch: Seq<Dirent>, calls: Seq<CallRec>)
+    requires batch_pre(inode, offset, fd, p, batch), delivered_ok(batch, calls, fd)
+    ensures known(dir_content(inode), offset) ==> resume_post(inode, offset, calls)
+{
+    let dd = dir_content(inode);
+    if known(dd, offset) { assert(delivered_ok(dd.subrange(after(dd, offset), p), calls, fd)); }
+}
+pub proof fn lemma_step_hidden(batch: Seq<Dirent>, i: int, calls: Seq<CallRec>, fd: int)
+    requires 0 <= i < batch.len(), hidden(batch[i]), all_accepted(calls, visible(batch.take(i)), fd)
+    ensures all_accepted(calls, visible(batch.take(i + 1)), fd)
+{ lemma_visible_take(batch, i); }
+pub proof fn lemma_step_accept(batch: Seq<Dirent>, i: int, calls: Seq<CallRec>, c: CallRec, fd: int)
+    requires 0 <= i < batch.len(), !hidden(batch[i]), all_accepted(calls, visible(batch.take(i)), fd), call_matches(c, batch[i], fd), accepted(c)
+    ensures all_accepted(calls.push(c), visible(batch.take(i + 1)), fd)
+{ reveal(all_accepted); lemma_visible_take(batch, i); }
+pub proof fn lemma_step_stop(batch: Seq<Dirent>, i: int, calls: Seq<CallRec>, c: CallRec, fd: int)
+    requires 0 <= i < batch.len(), !hidden(batch[i]), all_accepted(calls, visible(batch.take(i)), fd), call_matches(c, batch[i], fd), !accepted(c)
+    ensures delivered_ok(batch, calls.push(c), fd), c.ok is None && calls.len() == 0 ==> calls.push(c).len() == 1 && calls.push(c)[0].ok is None,
+{
+    reveal(all_accepted); reveal(delivered_ok); lemma_visible_take(batch, i);
+    let vt = visible(batch.take(i)); let vt1 = visible(batch.take(i + 1)); let cs = calls.push(c);
+    assert(vt1 =~= vt.push(batch[i]));
+    assert forall|j: int| 0 <= j < cs.len() implies call_matches(#[trigger] cs[j], visible(batch)[j], fd) by {
+        assert(vt1[j] == visible(batch)[j]);
+        if j < calls.len() { assert(cs[j] == calls[j]); assert(vt1[j] == vt[j]); }
+    }
+    assert forall|j: int| 0 <= j < cs.len() - 1 implies accepted(#[trigger] cs[j]) by { assert(cs[j] == calls[j]); }
+}
+pub proof fn lemma_step_done(batch: Seq<Dirent>, calls: Seq<CallRec>, fd: int)
+    requires all_accepted(calls, visible(batch.take(batch.len() as int)), fd)
+    ensures delivered_ok(batch, calls, fd)
+{ reveal(all_accepted); reveal(delivered_ok); assert(batch.take(batch.len() as int) =~= batch); }
+pub proof fn lemma_all_accepted_empty(batch: Seq<Dirent>, fd: int)
+    ensures all_accepted(Seq::<CallRec>::empty(), visible(batch.take(0)), fd)
+{ reveal(all_accepted); assert(batch.take(0) =~= Seq::<Dirent>::empty()); }
+pub proof fn lemma_all_accepted_len0(calls: Seq<CallRec>, batch: Seq<Dirent>, fd: int)
+    requires all_accepted(calls, visible(batch.take(0)), fd)
+    ensures calls.len() == 0
+{ reveal(all_accepted); assert(batch.take(0) =~= Seq::<Dirent>::empty()); }
 // a name that starts with ".\0" / "..\0" in its NUL-padded field is exactly "." / ".."
 pub proof fn lemma_dot_names(s: Seq<u8>)
     requires has_nul(s)
     ensures is_dot(cstr_of(s)) <==> seq![46u8, 0u8].is_prefix_of(s),
             is_dotdot(cstr_of(s)) <==> seq![46u8, 46u8, 0u8].is_prefix_of(s),
 {
-    lemma_first_nul(s);
+    lemma_first_nul(s); reveal(cstr_of);
     let n = first_nul(s);
     let d1 = seq![46u8, 0u8]; let d2 = seq![46u8, 46u8, 0u8];
     if d1.is_prefix_of(s) { assert(s[0] == d1[0] && s[1] == d1[1]); assert(s.subrange(0, 2) =~= d1); if n > 1 { assert(s[1] != 0u8); } assert(n == 1); assert(cstr_of(s) =~= seq![46u8]); }
@@ -371,6 +437,113 @@ pub proof fn lemma_dot_names(s: Seq<u8>)
 }
 '''
 
+
+TOP = r'''
+// =====================================================================================================================
+// ---- C16, the statement across calls (proof functions over the abstract stream; checked by Verus)
+pub proof fn lemma_cookie_index(d: Seq<Dirent>, k: int)
+    requires dir_ok(d), 0 <= k < d.len()
+    ensures find_off(d, d[k].off) == k, d[k].off != 0, known(d, d[k].off), after(d, d[k].off) == k + 1
+{ lemma_find_off_is(d, d[k].off, k); }
+// the accepted calls of one do_readdir: all of them, or all but the last
+pub open spec fn n_accepted(calls: Seq<CallRec>) -> int { if calls.len() > 0 && !accepted(calls.last()) { calls.len() - 1 } else { calls.len() as int } }
+pub proof fn lemma_delivered_prefix(batch: Seq<Dirent>, calls: Seq<CallRec>, fd: int)
+    requires delivered_ok(batch, calls, fd)
+    ensures 0 <= n_accepted(calls) <= visible(batch).len(),
+            forall|j: int| 0 <= j < n_accepted(calls) ==> call_matches(#[trigger] calls[j], visible(batch)[j], fd) && accepted(calls[j]),
+            // fewer delivered than listed: the next one was offered and refused (reply full / error), nothing was skipped silently
+            n_accepted(calls) < visible(batch).len() ==> calls.len() == n_accepted(calls) + 1 && call_matches(calls.last(), visible(batch)[n_accepted(calls)], fd), // [C16.lemma.delivered_prefix]
+{ reveal(delivered_ok); }
+// the m-th visible entry of a run sits at some index j, and the visible part of the run up to and including j is exactly the first m
+pub proof fn lemma_visible_index(s: Seq<Dirent>, m: int) -> (j: int)
+    requires 1 <= m <= visible(s).len()
+    ensures 0 <= j < s.len(), s[j] == visible(s)[m - 1], visible(s.take(j + 1)) =~= visible(s).take(m)
+    decreases s.len()
+{
+    let p = s.drop_last();
+    if hidden(s.last()) {
+        let j = lemma_visible_index(p, m);
+        assert(s.take(j + 1) =~= p.take(j + 1));
+        j
+    } else if m == visible(s).len() {
+        assert(s.take(s.len() as int) =~= s);
+        assert(visible(s).take(m) =~= visible(s));
+        s.len() - 1
+    } else {
+        let j = lemma_visible_index(p, m);
+        assert(s.take(j + 1) =~= p.take(j + 1));
+        assert(visible(s).take(m) =~= visible(p).take(m));
+        j
+    }
+}
+pub open spec fn concat(g: Seq<Seq<Dirent>>) -> Seq<Dirent> decreases g.len() {
+    if g.len() == 0 { Seq::empty() } else { concat(g.drop_last()) + g.last() }
+}
+// one READDIR exchange as the client sees it: it asked for `off` and was delivered `got` - a prefix of the visible part of a run of the
+// directory that starts right after `off` and is empty only at the end (what [C16.do_readdir.resume] + lemma_delivered_prefix give)
+pub open spec fn exchange_ok(d: Seq<Dirent>, off: u64, got: Seq<Dirent>) -> bool {
+    known(d, off) && exists|e: int| after(d, off) <= e <= d.len() && (e == after(d, off) ==> e == d.len())
+        && #[trigger] got.is_prefix_of(visible(d.subrange(after(d, off), e)))
+}
+// ASSUMED about the exchange (hypothesis, not proved here): an empty reply is given only when nothing visible is left -
+// i.e. the reply buffer holds at least the next entry (property text) AND the batch read contains a visible entry unless none is left
+pub open spec fn progress(d: Seq<Dirent>, off: u64, got: Seq<Dirent>) -> bool {
+    got.len() == 0 ==> visible(d.skip(after(d, off))).len() == 0
+}
+// a client that starts at 0 and resumes each time from the `off` of the last entry it was delivered
+pub open spec fn session(d: Seq<Dirent>, offs: Seq<u64>, gots: Seq<Seq<Dirent>>) -> bool {
+    offs.len() == gots.len() && offs.len() > 0 && offs[0] == 0
+    && (forall|k: int| 0 <= k < offs.len() ==> exchange_ok(d, #[trigger] offs[k], gots[k]) && progress(d, offs[k], gots[k]))
+    && (forall|k: int| 0 <= k < offs.len() - 1 ==> (#[trigger] gots[k]).len() > 0 && offs[k + 1] == gots[k].last().off)
+}
+pub proof fn lemma_c16_step(d: Seq<Dirent>, off: u64, got: Seq<Dirent>)
+    requires dir_ok(d), exchange_ok(d, off, got), got.len() > 0
+    ensures known(d, got.last().off), after(d, off) < after(d, got.last().off) <= d.len(),
+            visible(d.take(after(d, got.last().off))) =~= visible(d.take(after(d, off))) + got, // [C16.lemma.step] what was delivered is exactly the visible part between the two cookies
+{
+    let s = after(d, off);
+    lemma_find_off(d, off);
+    let e = choose|e: int| s <= e <= d.len() && (e == s ==> e == d.len()) && #[trigger] got.is_prefix_of(visible(d.subrange(s, e)));
+    let batch = d.subrange(s, e); let m = got.len() as int;
+    let j = lemma_visible_index(batch, m);
+    assert(got.last() == visible(batch)[m - 1]);
+    assert(batch[j] == d[s + j]);
+    lemma_cookie_index(d, s + j);
+    assert(d.take(s + j + 1) =~= d.take(s) + batch.take(j + 1));
+    lemma_visible_add(d.take(s), batch.take(j + 1));
+    assert(visible(batch).take(m) =~= got);
+}
+pub proof fn lemma_c16(d: Seq<Dirent>, offs: Seq<u64>, gots: Seq<Seq<Dirent>>, k: int)
+    requires dir_ok(d), session(d, offs, gots), 0 <= k < offs.len()
+    ensures known(d, offs[k]),
+            concat(gots.take(k)) =~= visible(d.take(after(d, offs[k]))), // [C16.lemma.prefix] before exchange k the client holds exactly the visible entries up to its cookie, each once, in order
+            gots[k].len() == 0 ==> concat(gots.take(k + 1)) =~= visible(d), // [C16.lemma.exactly_once] the listing that ends with an empty reply is the whole directory minus "." and ".."
+    decreases k
+{
+    if k == 0 {
+        assert(gots.take(0) =~= Seq::<Seq<Dirent>>::empty());
+        assert(d.take(0) =~= Seq::<Dirent>::empty());
+    } else {
+        lemma_c16(d, offs, gots, k - 1);
+        assert(gots[k - 1].len() > 0);
+        lemma_c16_step(d, offs[k - 1], gots[k - 1]);
+        assert(gots.take(k).drop_last() =~= gots.take(k - 1));
+        assert(gots.take(k).last() == gots[k - 1]);
+    }
+    if gots[k].len() == 0 {
+        let s = after(d, offs[k]);
+        lemma_find_off(d, offs[k]);
+        assert(gots.take(k + 1).drop_last() =~= gots.take(k));
+        assert(gots.take(k + 1).last() == gots[k]);
+        assert(d =~= d.take(s) + d.skip(s));
+        lemma_visible_add(d.take(s), d.skip(s));
+        assert(progress(d, offs[k], gots[k]));
+        assert(visible(d.skip(s)) =~= Seq::<Dirent>::empty());
+        assert(concat(gots.take(k + 1)) =~= concat(gots.take(k)) + gots[k]);
+        assert(gots[k] =~= Seq::<Dirent>::empty());
+    }
+}
+'''
 
 SYSW = 'every: host call -> model in module `sys` over the abstract directory stream (same arguments, ghost token appended)'
 GETDENTS_RX = r'libc::syscall\(\s*libc::SYS_getdents64,\s*dir\.as_raw_fd\(\),\s*buf\.as_mut_ptr\(\) as \*mut LinuxDirent64,\s*size as libc::c_int,\s*\)'
@@ -393,10 +566,7 @@ DR_ENS = [
     'cache_inv(*final(ks)) // [C16.do_readdir.cache_inv] a cookie stays cached only while the descriptor is positioned right after it',
     'extends(final(add_entry).log(), old(add_entry).log())',
     # the core: resuming from 0 or from the cookie of any entry offers the run that starts right after it
-    ('res is Ok && size != 0 && known(%(D)s, offset) ==> exists|e: int, fd: int| after(%(D)s, offset) <= e <= %(D)s.len() '
-     '&& (e == after(%(D)s, offset) ==> e == %(D)s.len()) && fd_ino(fd) == inode '
-     '&& #[trigger] delivered_ok(%(D)s.subrange(after(%(D)s, offset), e), %(C)s, fd) '
-     '// [C16.do_readdir.resume] the batch offered starts right after the cookie and is empty only at the end of the directory') % dict(D=D_, C=CALLS),
+    'res is Ok && size != 0 && known(%s, offset) ==> resume_post(inode, offset, %s) // [C16.do_readdir.resume] the batch offered starts right after the cookie and is empty only at the end of the directory' % (D_, CALLS),
     ('res is Ok && !known(%s, offset) && offset > 0x7fff_ffff_ffff_ffffu64 ==> %s.len() == 0 '
      '// [C16.do_readdir.stale] an unknown cookie on the scan path yields an empty reply, not a loop') % (D_, CALLS),
     'size == 0 ==> %s.len() == 0 && *final(ks) == *old(ks)' % CALLS,
@@ -409,6 +579,9 @@ DR_DATA = 'let ghost fd = data.hfd() as int; let ghost d = dir_of(fd); let ghost
 DR_HIT = '''let ghost ks2 = *ks;
             proof {
                 assert(cookie_hit ==> ks.pos[fd] == after(d, offset) && known(d, offset));
+                assert(cache_inv_except(*ks, fd)) by {
+                    assert forall|h: u64| #[trigger] ks.cache.dom().contains(h) implies handle_fd(h) != fd && ks0.cache.dom().contains(h) && ks0.cache[h] == ks.cache[h] && ks.pos[handle_fd(h)] == ks0.pos[handle_fd(h)] by { }
+                }
             }'''
 SCAN_INV = '''let ghost ks3 = *ks;
                 loop
@@ -417,14 +590,14 @@ SCAN_INV = '''let ghost ks3 = *ks;
                         !found ==> forall|j: int| 0 <= j < ks.pos[fd] ==> (#[trigger] d[j]).off != offset,
                         found ==> known(d, offset) && ks.pos[fd] == after(d, offset),
                     invariant
-                        offset != 0, d == dir_of(fd), dir_ok(d), dir.sfd() as int == fd, pos_ok(*ks, fd), ks.cache == ks3.cache,
+                        offset != 0, size != 0, d == dir_of(fd), dir_ok(d), cache_inv_except(*ks, fd), log0 == add_entry.log(), dir.sfd() as int == fd, pos_ok(*ks, fd), ks.cache == ks3.cache,
                         forall|f: int| f != fd ==> ks.pos[f] == ks3.pos[f],
                     ensures
                         batch_ok(*ks, fd, offset, buf@), // [C16.do_readdir.scan] the scan hands over exactly the records after the cookie; nothing for an unknown cookie
                         !known(d, offset) ==> buf@.len() == 0, // [C16.do_readdir.stale]
                     decreases d.len() - ks.pos[fd]
                 {
-                    let ghost p0 = ks.pos[fd];'''
+                    let ghost p0 = ks.pos[fd]; let ghost kl = *ks;'''
 SCAN_EOF = '''proof {
                             assert(parse(buf@) =~= Seq::<Dirent>::empty());
                             if !found { lemma_find_off_is(d, offset, d.len() as int); }
@@ -456,19 +629,27 @@ DR_CACHED = '''proof {
                 assert(cache_inv(*ks));
             }'''
 REC_INV = '''let ghost batch = parse(buf@); let ghost mut i: int = 0; let ghost ks5 = *ks;
-        proof { assert(buf@.subrange(0, buf@.len() as int) =~= buf@); assert(batch.take(0) =~= Seq::<Dirent>::empty()); assert(batch.skip(0) =~= batch); }
+        proof {
+            assert(buf@.subrange(0, buf@.len() as int) =~= buf@); assert(batch.skip(0) =~= batch);
+            assert(new_calls(add_entry.log(), log0) =~= Seq::<CallRec>::empty());
+            lemma_all_accepted_empty(batch, fd);
+            assert(batch_pre(inode, offset, fd, ks5.pos[fd], batch));
+        }
+        let ghost mut stopped = false;
         while !rem.is_empty()
-            invariant_except_break
-                all_accepted(new_calls(add_entry.log(), log0), visible(batch.take(i)), fd), // [C16.do_readdir.loop] every visible record so far was offered once, in order, and accepted
+            invariant_except_break !stopped,
             invariant
+                !stopped ==> all_accepted(new_calls(add_entry.log(), log0), visible(batch.take(i)), fd), // [C16.do_readdir.loop] every visible record so far was offered once, in order, and accepted
+                stopped ==> delivered_ok(batch, new_calls(add_entry.log(), log0), fd), // [C16.do_readdir.delivered]
                 wf(rem@), 0 <= i <= batch.len(), parse(rem@) =~= batch.skip(i), rem@.len() <= 0x7fff_ffff_ffff_ffff,
                 i == 0 ==> rem@.len() == orig_rem_len, i > 0 ==> rem@.len() < orig_rem_len,
-                *ks == ks5, data.hfd() as int == fd, extends(add_entry.log(), log0),
-            ensures
-                delivered_ok(batch, new_calls(add_entry.log(), log0), fd), // [C16.do_readdir.delivered]
+                *ks == ks5, cache_inv(ks5), size != 0, data.hfd() as int == fd, extends(add_entry.log(), log0), log0 == old(add_entry).log(),
+                batch_pre(inode, offset, fd, ks5.pos[fd], batch),
+                !known(dir_content(inode), offset) && offset > 0x7fff_ffff_ffff_ffffu64 ==> batch.len() == 0,
+            ensures !stopped ==> rem@.len() == 0,
             decreases rem@.len()
         {
-            proof { lemma_parse_step(rem@); lemma_visible_take(batch, i); assert(batch[i] == rec_ent(rem@)); }
+            proof { assert(!stopped); lemma_parse_step(rem@); assert(batch[i] == batch.skip(i)[0]); assert(batch[i] == rec_ent(rem@)); if i == 0 { lemma_all_accepted_len0(new_calls(add_entry.log(), log0), batch, fd); } }
             let ghost log1 = add_entry.log();'''
 REC_FRONT = 'proof { assert(front@ =~= rem@.subrange(0, HDR as int)); }'
 REC_NAME = '''proof {
@@ -476,31 +657,26 @@ REC_NAME = '''proof {
                 lemma_dot_names(name@);
             }'''
 REC_MATCH = '''proof {
-                let calls = new_calls(add_entry.log(), log0);
-                let vt = visible(batch.take(i)); let vt1 = visible(batch.take(i + 1));
+                let calls1 = new_calls(log1, log0); let calls = new_calls(add_entry.log(), log0);
                 if hidden(batch[i]) {
                     assert(add_entry.log() == log1);
+                    lemma_step_hidden(batch, i, calls1, fd);
                 } else {
-                    assert(add_entry.log() == log1.push(add_entry.log().last()));
-                    assert(calls =~= new_calls(log1, log0).push(add_entry.log().last()));
-                    assert(call_matches(calls.last(), batch[i], fd)); // [C16.do_readdir.entry] ino, offset, type and name (up to the first NUL) are those of this record
-                    assert(extends(add_entry.log(), log0));
+                    let c = add_entry.log().last();
+                    assert(calls =~= calls1.push(c));
+                    assert(add_entry.log().take(log0.len() as int) =~= log1.take(log0.len() as int));
+                    assert(call_matches(c, batch[i], fd)); // [C16.do_readdir.entry] ino, offset, type and name (up to the first NUL) are those of this record
+                    if accepted(c) { lemma_step_accept(batch, i, calls1, c, fd); }
+                    else { stopped = true; lemma_step_stop(batch, i, calls1, c, fd); lemma_exit(inode, offset, fd, ks5.pos[fd], batch, calls); } // [C16.do_readdir.stop] nothing is offered after an entry that was not accepted
                 }
-                lemma_visible_take(batch, i);
-                // the three ways out of the loop below
-                if res is Ok && res->Ok_0 != 0 {
-                    assert(rem@.skip(rec_len(rem@)).len() < rem@.len());
-                    assert(all_accepted(calls, vt1, fd));
-                } else {
-                    assert(!hidden(batch[i]));
-                    assert(delivered_ok(batch, calls, fd)); // [C16.do_readdir.stop] nothing is offered after an entry that was not accepted
-                }
+                assert(rem@.skip(rec_len(rem@)).len() < rem@.len());
             }'''
 REC_ADV = 'proof { assert(batch.skip(i).skip(1) =~= batch.skip(i + 1)); i = i + 1; }'
 REC_END = '''proof {
             let calls = new_calls(add_entry.log(), log0);
-            assert(delivered_ok(batch, calls, fd));
-            if known(d, offset) { assert(delivered_ok(d.subrange(after(d, offset), ks5.pos[fd]), calls, fd)); }
+            if !stopped { assert(batch.skip(i).len() == 0); lemma_step_done(batch, calls, fd); }
+            lemma_exit(inode, offset, fd, ks5.pos[fd], batch, calls);
+            if !known(dir_content(inode), offset) && offset > 0x7fff_ffff_ffff_ffffu64 { reveal(delivered_ok); assert(visible(batch) =~= Seq::<Dirent>::empty()); }
         }'''
 
 GET_DIRDATA = '''    // get_dirdata: the handle's own descriptor, or (no_opendir mode) a descriptor freshly opened on the directory - at position 0 and owned by no handle
@@ -530,6 +706,7 @@ def unit(root='/repo'):
         Raw(KS),
         Copy(FSMOD, r'pub struct DirEntry\b', prefix='#[derive(Clone, Copy)]', subst=[('ino64_t', 'u64')]),
         Raw(CB),
+        Raw(TOP),
         ByteConst(VFSMOD, 'CURRENT_DIR_CSTR'),
         ByteConst(VFSMOD, 'PARENT_DIR_CSTR'),
         Fn(UTIL, None, 'einval', props=['C16']),
@@ -567,7 +744,7 @@ def unit(root='/repo'):
                          'proof { let rest = buf@.skip(cur as int); assert(rest.skip(reclen as int) =~= buf@.skip(cur + reclen)); assert(es =~= pre.push(rec_ent(rest)) + parse(rest.skip(reclen as int))); pre = pre.push(rec_ent(rest)); }'),
                         ('if found {', 'before', SKIP_POST),
                         ('vec_drain_to(buf, cur);', 'before', 'proof { let rest = buf@.skip(cur0 as int); assert(rest.skip(target_reclen as int) =~= buf@.skip(cur as int)); }')],
-               ensures=['wf(final(buf)@)',
+               ensures=['wf(final(buf)@)', 'final(buf)@.len() <= old(buf)@.len()',
                         'res == (find_off(parse(old(buf)@), offset) < parse(old(buf)@).len()) // [C16.skip_to_cookie.found]',
                         'res ==> parse(final(buf)@) =~= parse(old(buf)@).skip(find_off(parse(old(buf)@), offset) + 1) // [C16.skip_to_cookie.rest] exactly the records after the matched one remain',
                         '!res ==> final(buf)@ == old(buf)@ // [C16.skip_to_cookie.notfound]'],
